@@ -425,6 +425,8 @@ def replay_main(path):
         if g[0] == ["2"]:
             nj, rounds = (int(g[1][2]), int(g[1][3])) if len(g[1]) > 2 else (0, 1)
             found = stress_predicates(dec(g[2]), dec(g[3]), (int(g[1][0]) + nj, int(g[1][1])), o, obj.get("nslots", 50), nj, rounds)[0]
+        elif g[0] == ["6"]:
+            found = sweep_predicates(cs, o)[0]
         elif g[0] == ["4"]:
             bc = BigCase.from_line(cs)
             print("history %s" % bc.describe())
@@ -462,6 +464,202 @@ def compact(case, ev, rs, idx, pwd, changed, nmodel):
            + " -1 " + enc([idx[u - 1] for u in slots] + pad) + " -1 " + enc([pwd[u - 1] for u in slots] + pad) \
            + " -1 " + " ".join(map(str, obs)) + " -1 %d" % (obs[-1] if obs else -1)
     return mtab, want
+
+
+# ------------------------------------------------------------------ registrations on a full table: the expiry sweep (driver op 6, model op 3)
+DAY = 86400
+SW_LIVE = [0, -1, -60, -3600, -10 * DAY, 1, 5, 60, 3600, DAY, 365 * DAY, 3650 * DAY]    # LastLogin - now: recent, or LATER than the sweeping clock
+SW_OLD = [-100 * DAY, -200 * DAY, -250 * DAY, -400 * DAY]                                 # beyond some keep time (all at least a day away from a threshold)
+SW_LEVELS = [7, 7, 7 | 16, 7 | 256]                                                       # unregistered, registered (PERM_LOGINOK), exempt (PERM_XEMPT)
+
+
+def sw_line(fresh, tab, lv, dl, ids, stamps, sched):
+    return "6|%d|%s|%s|%s|%s|%s|%s" % (fresh, enc(tab), " ".join(map(str, lv)), " ".join(map(str, dl)), enc(ids), " ".join(map(str, stamps)), " ".join(map(str, sched)))
+
+
+def sw_parse(out):
+    f = out.split()
+    if f[:1] != ["0"]:
+        return None
+    g = split(f[1:])
+    if len(g) > 6:                                                   # the last group (LastLogin - now per slot) may itself contain -1
+        last = list(g[5])
+        for x in g[6:]:
+            last += ["-1"] + x
+        g = g[:5] + [last]
+    if len(g) != 6 or len(g[0]) != 6:
+        return None
+    hdr = [int(x) for x in g[0]]
+    tr = [int(x) for x in g[1]]
+    rs = [int(x) for x in g[2]]
+    return hdr, [tuple(tr[i:i + 3]) for i in range(0, len(tr), 3)], [tuple(rs[i:i + 2]) for i in range(0, len(rs), 2)], dec(g[3]), dec(g[4]), [int(x) for x in g[5]]
+
+
+def sw_killable(id_, lv, dist, kr, ku, rng_min):
+    """the expiry rule of ptt/register.go (computeUserExpireValue / checkAndExpireAccount) for an account whose LastLogin lies
+    dist seconds before the sweeping clock (dist < 0: the stamp is later than the clock): int32 difference, truncating division"""
+    if not id_ or lv & 256 or id_ == b"guest":
+        return False
+    d = (dist + 2 ** 31) % 2 ** 32 - 2 ** 31
+    m = abs(d) // 60 * (1 if d >= 0 else -1)
+    v = (30 if id_ == b"new" else kr * 1440 if lv & (16 | 131072) else ku * 1440) - m
+    return v < 0 and -v > rng_min
+
+
+def sweep_predicates(line, out):
+    """direct predicates on what the real SetupNewUser calls left behind after a run in which the expiry sweep was armed"""
+    g = [x.split() for x in line.split("|")]
+    fresh, tab, lv, dl = int(g[1][0]), dec(g[2]), [int(x) for x in g[3]], [int(x) for x in g[4]]
+    ids, stamps = dec(g[5]), [int(x) for x in g[6]]
+    what = "table: %d accounts, %d free slots, .fresh %s; requests %s with LastLogin - now = %s; schedule %s" % (
+        len([i for i in tab if i]), len([i for i in tab if not i]), ["missing", "two hours old", "recent"][fresh], [i.decode() for i in ids], stamps, g[7])
+    st = out.split()[:1]
+    if st == ["1"]:
+        return [("reg-sweep-crash", "a registration on a full table panicked: " + what)], None
+    if st == ["2"]:
+        return [("reg-sweep-did-not-return", "a registration on a full table did not return within 120 s: " + what)], None
+    p = sw_parse(out)
+    if p is None:
+        return [("reg-sweep-bad-output", "driver output not understood: %s" % out[:200])], None
+    (now0, now1, kr, ku, rng_min, semval), tr, rs, idx, pwd, lld = p
+    el = max(0, now1 - now0)
+    bad = []
+    unsure = set()
+    killable = {}
+    for k, i in enumerate(tab):
+        a, b = sw_killable(i, lv[k], -dl[k], kr, ku, rng_min), sw_killable(i, lv[k], -dl[k] + el, kr, ku, rng_min)
+        killable[k] = a or b or k == 0 and False
+        if a != b:
+            unsure.add(k)
+    # 1. an account that is not expired for the sweeping clock - in particular one whose stamp is later than that clock - keeps its slot
+    for k, i in enumerate(tab):
+        if i and (k == 0 or not killable[k]) and (idx[k] != i or pwd[k] != i):
+            taker = [ids[t].decode() for t, (e, u) in enumerate(rs) if e == 0 and u == k + 1]
+            bad.append(("reg-sweep-live-account-killed", "the account %r in slot %d (level %d, LastLogin = clock of the registering process %+d s: not expired) was removed by the sweep "
+                        "a registration ran on the full table; afterwards the index holds %r and .PASSWDS %r there%s; %s" % (
+                            i.decode(), k + 1, lv[k], dl[k], idx[k].decode("latin1"), pwd[k].decode("latin1"), " (slot given to %s)" % taker if taker else "", what)))
+            break
+    # 2. every request that reported success still holds its slot, in the index and in .PASSWDS; no slot was reported twice; the slot was free or its account expired
+    succ = [(t, u) for t, (e, u) in enumerate(rs) if e == 0]
+    seen = {}
+    for t, u in succ:
+        if u in seen:
+            bad.append(("reg-sweep-shared-slot", "slot %d was given to %r and to %r, both reported success: %s" % (u, ids[seen[u]].decode(), ids[t].decode(), what)))
+        seen.setdefault(u, t)
+    for t, u in succ:
+        if not (1 <= u <= len(idx)) or idx[u - 1] != ids[t] or pwd[u - 1] != ids[t]:
+            bad.append(("reg-sweep-success-lost", "%r reported success for slot %d (LastLogin = now %+d s) but afterwards the index holds %r and .PASSWDS %r there: %s" % (
+                ids[t].decode(), u, stamps[t], idx[u - 1].decode("latin1") if 1 <= u <= len(idx) else None, pwd[u - 1].decode("latin1") if 1 <= u <= len(pwd) else None, what)))
+            break
+    for t, u in succ:
+        if 1 <= u <= len(tab) and tab[u - 1] and not killable[u - 1]:
+            bad.append(("reg-sweep-slot-was-held", "%r was given slot %d, which held the live account %r (LastLogin = now %+d s): %s" % (ids[t].decode(), u, tab[u - 1].decode(), dl[u - 1], what)))
+            break
+    keys = [low(ids[t]) for t, _ in succ]
+    if len(set(keys)) != len(keys):
+        bad.append(("reg-sweep-duplicate-id", "a case-insensitive id was registered twice: %s; %s" % ([(ids[t].decode(), u) for t, u in succ], what)))
+    final = [low(i) for i in idx if i]
+    if len(set(final)) != len(final):
+        bad.append(("reg-sweep-duplicate-id", "the final index holds an id twice: %s" % what))
+    if idx != pwd:
+        k = [k for k in range(len(idx)) if idx[k] != pwd[k]][0]
+        bad.append(("reg-sweep-index-passwd-differ", "slot %d: index %r, .PASSWDS %r: %s" % (k + 1, idx[k].decode("latin1"), pwd[k].decode("latin1"), what)))
+    # 3. afterwards the table is the initial one minus expired accounts plus exactly the successes
+    for k in range(len(idx)):
+        if idx[k] and idx[k] != (tab[k] if k < len(tab) else b"") and (k + 1) not in seen:
+            bad.append(("reg-sweep-unreported-account", "slot %d holds %r although no request reported success for it: %s" % (k + 1, idx[k].decode("latin1"), what)))
+            break
+    if semval != 1:
+        bad.append(("reg-sweep-sem-value", "the passwd semaphore reads %d after all calls returned: %s" % (semval, what)))
+    return bad, (p, unsure, el)
+
+
+def sweep_section(c, rng, thorough, impl, model, nslots):
+    """full and nearly full tables with .fresh missing/stale, accounts stamped before, at and after the clock of the registering
+    process, 1-3 registrations (different ids, same id, case twins) whose own stamps are ahead of / behind that clock"""
+    names = [b"SYSOP"] + [b"acct%02d" % k for k in range(2, nslots + 1)]
+    reqs = [b"newuser1", b"other22", b"NewUser1", b"third3", b"acct07", b"ACCT09"]
+    lines, kinds = [], []
+
+    def mk(free, old_share, future_share, fresh, ids, stamps, sched, specials=()):
+        tab, lv, dl = list(names), [], []
+        for k in range(nslots):
+            r = rng.random()
+            lv.append(rng.choice(SW_LEVELS))
+            dl.append(rng.choice(SW_OLD) if r < old_share else rng.choice([x for x in SW_LIVE if x > 0]) if r < old_share + future_share else rng.choice(SW_LIVE))
+        for k, name in specials:
+            tab[k] = name
+        for k in rng.sample(range(1, nslots), free):
+            tab[k], lv[k], dl[k] = b"", 0, 0
+        return sw_line(fresh, tab, lv, dl, ids, stamps, sched)
+
+    # the plain history first: the table is full but for one slot, A takes it with a stamp ahead of the clock, B (another id) arrives
+    for ahead in (3600, 5, DAY, 0, -5):
+        for fresh in (0, 1):
+            lines.append(mk(1, 0, 0.3, fresh, [b"newuser1", b"other22"], [ahead, 0], [0, 0, 0, 0, 1, 1, 1, 1])); kinds.append("sweep/last-slot-then-full")
+    for fresh in (0, 1, 2):
+        lines.append(mk(0, 0, 0.5, fresh, [b"newuser1"], [0], [0, 0, 0, 0])); kinds.append("sweep/full-live-table")
+        lines.append(mk(0, 0.3, 0.3, fresh, [b"newuser1", b"other22"], [0, 3600], [0, 1, 0, 0, 0, 1, 1, 1])); kinds.append("sweep/full-some-expired")
+    lines.append(mk(0, 0, 0.2, 0, [b"newuser1"], [0], [0, 0, 0, 0], specials=[(5, b"new"), (6, b"guest")])); kinds.append("sweep/special-ids")
+    n = 900 if thorough else 110
+    scheds2 = list(interleavings([4, 4]))
+    for r in range(n):
+        nt = rng.choice([1, 2, 2, 2, 3])
+        ids = rng.sample(reqs, nt)
+        if rng.random() < 0.25 and nt >= 2:
+            ids[1] = rng.choice([ids[0], ids[0].swapcase()])
+        stamps = [rng.choice([0, 0, 5, 3600, DAY, -5, -3600]) for _ in range(nt)]
+        sched = list(rng.choice(scheds2)) if nt == 2 else [rng.randrange(nt) for _ in range(4 * nt)]
+        lines.append(mk(rng.choice([0, 0, 0, 1, 1, 2]), rng.choice([0, 0, 0.2, 0.5]), rng.choice([0.2, 0.5]), rng.choice([0, 0, 1, 1, 2]), ids, stamps, sched))
+        kinds.append("sweep/sampled-%d" % nt)
+    io = vf.run_impl(impl, "C15", lines, deadline_ms=600000)
+    vf.ipc_cleanup()
+    c.count(len(lines), "registrations on full tables with the expiry sweep armed")
+    mlines, midx, stats = [], [], {"sweeps that freed a slot": 0, "requests refused for want of a slot": 0, "successes": 0, "successes in a slot freed by the sweep": 0,
+                                   "accounts stamped after the clock, kept": 0, "cases skipped (clock moved across a threshold)": 0}
+    for k, (line, o) in enumerate(zip(lines, io)):
+        bad, info = sweep_predicates(line, o)
+        for key, desc in bad:
+            c.violation(key, desc, {"cases": [line], "got": o[:3000], "nslots": nslots,
+                                    "expected": {"accounts not expired for the sweeping clock (LastLogin recent or later than the clock)": "keep their slots", "successes": "distinct slots that were free or held an expired account; still in index and .PASSWDS afterwards",
+                                                 "index and .PASSWDS": "agree; initial table minus expired accounts plus exactly the successes", "passwd semaphore": 1}})
+        if info is None:
+            continue
+        (hdr, tr, rs, idx, pwd, lld), unsure, el = info
+        g = [x.split() for x in line.split("|")]
+        tab, dl = dec(g[2]), [int(x) for x in g[4]]
+        c.nontrivial((kinds[k], tuple(tr), tuple(rs), tuple(i for i in idx)))
+        gone = [j for j, i in enumerate(tab) if i and idx[j] != i]
+        stats["sweeps that freed a slot"] += 1 if gone else 0
+        stats["requests refused for want of a slot"] += len([1 for e, u in rs if e == 2])
+        stats["successes"] += len([1 for e, u in rs if e == 0])
+        stats["successes in a slot freed by the sweep"] += len([1 for e, u in rs if e == 0 and u - 1 in gone])
+        stats["accounts stamped after the clock, kept"] += len([1 for j, i in enumerate(tab) if i and dl[j] > 0 and idx[j] == i])
+        if unsure:
+            stats["cases skipped (clock moved across a threshold)"] += 1
+            continue
+        now0 = hdr[0]
+        if hdr[2:5] != [120, 15, 262800]:
+            c.broken.append({"kind": "correspondence", "where": "ptttype KEEP_DAYS_REGGED / KEEP_DAYS_UNREGGED / CLEAN_USER_EXPIRE_RANGE_MIN vs Model/C15", "theorem": "C15_sweep_spares_live",
+                             "mismatches": 1, "examples": [hdr], "log": ""})
+            break
+        mlines.append("3|%d %s|%s|%s|%s|%s|%s|%s" % (now0, g[1][0], " ".join(g[2]), " ".join(g[3]), " ".join(str(now0 + d if tab[j] else 0) for j, d in enumerate(dl)),
+                                                   " ".join(g[5]), " ".join(str(now0 + int(x)) for x in g[6]), " ".join(str(t) for t, code, v in tr)))
+        midx.append(k)
+    c.cov["sweep_runs"] = stats
+    if model and mlines:
+        mo = vf.run_model(model, mlines)
+        badm = []
+        for k, ml, m in zip(midx, mlines, mo):
+            (hdr, tr, rs, idx, pwd, lld) = sw_parse(io[k])
+            want = "0 " + " ".join("%d %d" % r for r in rs) + " -1 " + enc(pwd) + " -1 " + " ".join(map(str, lld))
+            if " ".join(m.split()) != " ".join(want.split()):
+                badm.append({"case": lines[k], "impl": io[k][:1500], "model_case": ml[:1500], "model": m[:1500]})
+        c.cov["sweep_runs_validated_against_model"] = len(mlines)
+        if badm:
+            c.broken.append({"kind": "correspondence", "where": "SetupNewUser with the expiry sweep (driver op 6) vs Model/C15 sw_run", "theorem": "C15_sweep_identity_on_live / C15_sweep_keeps_live_slot",
+                             "mismatches": len(badm), "examples": badm[:3], "log": ""})
+    c.sample({"kind": kinds[0], "case": lines[0][:300], "observed": io[0][:300]})
 
 
 def big_section(c, rng, thorough, model):
@@ -770,6 +968,7 @@ def main():
             c.violation(key, desc, {"cases": [line], "got": o[:3000], "nslots": nslots})
         c.nontrivial(("stress", sh, nj, tuple(pool), tuple(sorted(st.items()))))
     c.cov["stress_call_results"] = sstats
+    sweep_section(c, rng, thorough, impl, model, nslots)
     big_section(c, rng, thorough, model)
     c.cov["did_not_return(reported under parallel load / re-run alone with 8x waits / returned on the re-run)"] = [RERUN["reported"], RERUN["rerun"], RERUN["returned_on_rerun"]]
     for k in (0, nw + 5, n2 + 1, nsingle + 5, nh2 + 1, nhist + 7, njoin2 + 1, njoin + 40, nleave2 + 1):
@@ -788,9 +987,16 @@ def main():
                   "registered behind an existing account planted in a slot above 65 536 that shares their bucket (witness schedule and PRNG(seed)-sampled interleavings), PRNG(seed)-sampled 2-3 registrations over 1..3 processes "
                   "with 1-2 such accounts in high and low slots (also registering the old account's own id in another letter case), and tables whose slots 1..65 535/65 536/65 540/66 000 are occupied so that the new accounts "
                   "get slots above 65 536; each followed by a late registration; the driver looks every account of the final index up through cache.DoSearchUserRaw; "
+                  "registrations on full tables with the expiry sweep armed (op 6): the last free slot taken by a request stamped 3600/5/86400/0/-5 s relative to the clock and a second request of another id x {.fresh missing, stale}; "
+                  "full tables of live accounts, of partly expired accounts, with the ids new/guest, x {.fresh missing, stale, recent}; PRNG(seed)-sampled 1-3 registrations (different ids, same id, case twins, ids of existing accounts) "
+                  "with stamps ahead of/behind the clock on tables with 0-2 free slots, 0-50% expired and 20-50% future-stamped accounts, sampled interleavings; "
                   "a case is non-trivial/distinct by its (shape, process assignment, ids, table fill, observed event trace)",
              assumptions=["semop(2) on the passwd semaphore is an atomic P/V granting exclusivity; one DoSearchUserRaw / SetUserID / .PASSWDS record write is one atomic step of the model (the controller serialises the threads at the schedule points)",
-                          "tryCleanUser is a no-op during the runs (.fresh is recent): account expiry is C03's subject",
+                          "tryCleanUser is a no-op (.fresh recent) in every run but those of driver op 6; there the sweep is armed (.fresh missing / two hours old) and the table holds accounts whose LastLogin lies before, at and "
+                          "after the clock of the registering process (1 s .. 10 years later: a request served while the clock was ahead); the real clock cannot be set, so the stamps are placed relative to the clock the driver reads, "
+                          "every stamp at least a day away from an expiry threshold, and a case in which the clock moved across a threshold between the first and the last reading is not judged (none in practice); "
+                          "a call leaves reg.checked (sweep + semop) only while no call is inside the lock - a sweep running truly in parallel with the critical section of another call is not forced; "
+                          "the sweep theorems (C15_sweep_*) are about the table function and the sequential machine sw_step validated against these runs, not about the interleaving relation of the other theorems",
                           "a call that has not produced the event the controller waits for after 8 s - and, run again alone, after 64 s - never returns (status 2 is only kept when the re-run alone with 8 times longer waits hangs as well)",
                           "SEM_UNDO: when a process goes away (exit or SIGKILL) the kernel adds its per-process adjustment to the semaphore before the parent's wait returns; the harness stops a process only while its calls are parked at the schedule points, in semop, or not started",
                           "a call whose process went away after it had written the index and .PASSWDS (seen at reg.beforeUnlock) holds its slot and id although it never returned",
